@@ -263,11 +263,12 @@ def run(facts, res):
         adp_ = facts.const_str("constants::ARRAY_DESCRIPTOR_PREFIX")
         n_desc = 0
         if flb is not None:
-            for cb in [flb] + facts.closures_of(flb.path):
+            from ..common import members_of
+            for cb in members_of(facts, flb):
                 for bi, t in cb.calls():
                     if t.callee is None or t.callee.name != "insert" or "HashMap" not in (t.callee.path or "") or len(t.args) < 3:
                         continue
-                    k = arg_term(cb, t, 1, 20)
+                    k = arg_term(cb, t, 1, 40)
                     consts = [y[2] for y in walk(k) if y[0] == "const" and y[1] == "str"]
                     if adp_ not in consts:
                         continue
@@ -280,6 +281,13 @@ def run(facts, res):
                                 roots_ = {(y[0], y[1]) for y in walk(a) if y[0] in ("var", "param", "upvar")}
                                 if roots_ and not any(y[0] == "const" for y in walk(a)):
                                     parts.add(tuple(sorted(roots_)))
+                    # `format!("{}{}{}{}", PREFIX, owner, SEPARATOR, key)`: each displayed non-constant argument is a component
+                    for x in walk(k):
+                        if x[0] == "call" and callee_name(x) in ("new_display", "new_debug") and x[2]:
+                            a = x[2][0]
+                            roots_ = {(y[0], y[1]) for y in walk(a) if y[0] in ("var", "param", "upvar")}
+                            if roots_ and not any(y[0] == "const" for y in walk(a)):
+                                parts.add(tuple(sorted(roots_)))
                     hashed = any(x[0] == "call" and callee_name(x) in ("digest_string", "digest_bytes", "to_string") and
                                  "serde_json" in ((x[4].path if x[4] else "") or "") + callee_name(x) for x in walk(k) if callee_name(x) != "to_string")
                     inj = len(parts) <= 1 or hashed
@@ -300,8 +308,10 @@ def run(facts, res):
     fl = facts.body("utils::flatten")
     uf = facts.body("utils::unflatten")
     if fl is not None and uf is not None:
+        from ..common import members_of as _mo
+
         def calls_in(b, nm):
-            return sum(1 for cb in [b] + facts.closures_of(b.path) for _, t in cb.calls() if t.callee is not None and t.callee.target() == nm)
+            return sum(1 for cb in _mo(facts, b) for _, t in cb.calls() if t.callee is not None and t.callee.target() == nm)
         f1, f2 = calls_in(fl, "utils::is_flattened_field"), calls_in(uf, "utils::is_flattened_field")
         esc = calls_in(fl, "utils::escape")
         une = calls_in(uf, "utils::unescape")
@@ -312,10 +322,10 @@ def run(facts, res):
         adp = facts.const_str("constants::ARRAY_DESCRIPTOR_PREFIX")
         iad = consts_of("utils::is_array_descriptor", {"starts_with"})
         mk = set()
-        for cb in [fl] + facts.closures_of(fl.path):
+        for cb in _mo(facts, fl):
             for bi, t in cb.calls():
-                if t.callee is not None and t.callee.name == "to_string":
-                    for x in walk(arg_term(cb, t, 0, 6)):
+                if t.callee is not None and t.callee.name in ("to_string", "new_display", "to_owned", "from", "into"):
+                    for x in walk(arg_term(cb, t, 0, 8)):
                         if x[0] == "const" and x[1] == "str":
                             mk.add(x[2])
         res.instance("U3", "descriptor prefix: is_array_descriptor tests %s, flatten builds ids with %s, constant %r" % (iad, sorted(mk), adp), fl.loc())
@@ -324,7 +334,7 @@ def run(facts, res):
         of = facts.const_str("constants::ARRAY_DESCRIPTOR_ORDER_FIELD")
         wr = of in mk
         rdk = set()
-        for cb in [uf] + facts.closures_of(uf.path):
+        for cb in _mo(facts, uf):
             for bi, t in cb.calls():
                 if t.callee is not None and t.callee.name == "get" and "serde_json::Map" in t.callee.path:
                     for x in walk(arg_term(cb, t, 1, 6)):
